@@ -362,8 +362,16 @@ def fill_md(md, items):
 
 
 def build_md(items):
+  """Metadata with the items at their absolute namespaces. Every third
+  non-empty one is handed over as a *view* of the same store positioned in
+  another namespace (what `md.ns('algo')` gives an algorithm): converters have
+  to transmit all of it, wherever the view stands."""
   from vizier import pyvizier as vz
-  return fill_md(vz.Metadata(), items)
+  md = fill_md(vz.Metadata(), items)
+  if items and sum(len(k) for _, k, _ in items) % 3 == 0:
+    ns0 = list(items[0][0])
+    return md.abs_ns(ns0) if ns0 else md.ns('c09view')
+  return md
 
 
 # ---------------------------------------------------------------------------
